@@ -4,9 +4,12 @@ package props
 
 import (
 	"fmt"
+	"go/ast"
+	"go/types"
 	"sort"
 	"strings"
 
+	"golang.org/x/tools/go/packages"
 	"golang.org/x/tools/go/ssa"
 
 	"mcverif/internal/check"
@@ -292,4 +295,25 @@ func keyArgs(key *ir.Expr) []*ir.Expr {
 		return key.Args
 	}
 	return nil
+}
+
+// astInspectCalls visits every call expression of a file with the callee's full name and the
+// source text of its arguments.
+func astInspectCalls(file *ast.File, visit func(callee string, args []string), pk *packages.Package) {
+	ast.Inspect(file, func(n ast.Node) bool {
+		call, ok := n.(*ast.CallExpr)
+		if !ok {
+			return true
+		}
+		obj := ir.CalleeObj(pk, call)
+		if obj == nil {
+			return true
+		}
+		var args []string
+		for _, a := range call.Args {
+			args = append(args, types.ExprString(a))
+		}
+		visit(obj.FullName(), args)
+		return true
+	})
 }
